@@ -14,6 +14,8 @@ fn first_tag_after_error(bytes: &[u8], offset: usize) -> u8 {
     bytes.get(offset).copied().unwrap_or(0)
 }
 
+const MODERN_TAGS: &[u8] = &[70, 77, 88, 89, 90, 97, 98, 104, 105, 106, 107, 108, 109, 110, 111, 112, 113, 116, 118, 119, 120];
+
 /// `valid_modern`: the input is, by construction, a valid encoding built only from modern tags.
 pub fn check(ctx: &Ctx, x: &[u8], valid_modern: Option<&Val>, origin: &str) {
     ctx.eval(1);
@@ -96,7 +98,7 @@ fn check_nesting(ctx: &Ctx, x: &[u8], origin: &str) {
 }
 
 pub fn run(ctx: &Ctx) {
-    ctx.rule("inputs = valid encodings restricted to the modern tag set (from the independent writer) + valid encodings over all admissible tags incl. legacy ones (agreement where both accept) + their truncations at every offset + byte mutations/splices + random bytes; distinct = distinct (outcome pair of the two decoders, first tag byte, input-length bucket, value-kind set for valid inputs)");
+    ctx.rule("inputs = valid encodings restricted to the modern tag set (from the independent writer) + valid encodings over all admissible tags incl. legacy ones (agreement where both accept) + every valid input with one place spelled another way the format offers (judged as a valid modern input when an independent reader parses it and meets modern tags only) + their truncations at every offset + byte mutations/splices + random bytes; distinct = distinct (outcome pair of the two decoders, first tag byte, input-length bucket, value-kind set for valid inputs)");
     ctx.assume("modern tag set = 70,77,88,89,90,97,98,104..111,112,113,116,118,119,120 (what OTP 26+ emits over distribution)");
     let opts = Opts { modern_only: true, ..Opts::default() };
     let mut rng = Rng::derive(ctx.seed, 13, 1);
@@ -193,6 +195,28 @@ pub fn run(ctx: &Ctx) {
                 cls(ctx, &b[..k], "trunc");
                 check(ctx, &b[..k], None, "truncation");
                 k += step;
+            }
+        }
+        // one place spelled another way: whatever the owned decoder makes of it, the zero-copy one must make the same
+        if b.len() <= 600 {
+            for (how, m) in crate::genr::bytes::respellings(b, ctx.pick(40, 400)) {
+                ctx.class(&format!("respelled/{}", how));
+                // if an independent reader parses the whole input and meets modern tags only, the input is "built only
+                // from the tags current OTP releases emit": the zero-copy decoder then has to accept whenever the owned does
+                let modern: Option<Val> = if m.first() == Some(&131) {
+                    let mut r = crate::refmodel::decode::Reader::new(&m[1..]);
+                    r.allow_local = false;
+                    match r.term(0) {
+                        Ok(v) if r.pos == m.len() - 1 && (0..=255u8).all(|t| r.tags_seen[(t >> 6) as usize] & (1u64 << (t & 63)) == 0 || MODERN_TAGS.contains(&t)) => Some(v),
+                        _ => None,
+                    }
+                } else {
+                    None
+                };
+                if modern.is_some() {
+                    ctx.count("respelled_inputs_that_are_valid_and_modern", 1);
+                }
+                check(ctx, &m, modern.as_ref(), "one place spelled another way");
             }
         }
         // mutations
